@@ -68,8 +68,8 @@ PLAN = {
     'C13': {
         'level': 'other',
         'explanation': 'frame obligations decided on the token tree (no cached observer in the connectables, per-subscription state in the subjects\' observable()), plus bounded conformance on the real types: Kani for publish (concrete call sequences, symbolic items), native runs with concrete payloads for ref_count/replay (their harnesses exceed 600 s under Kani). Nothing here is an unbounded proof of the call-sequence property; the obligations/discharged counts cover only the syntactic obligations.',
-        'engines': ['kani', 'syntactic'],
-        'technique': 'Kani bounded call sequences on the real publish/ref_count/replay with a hot instrumented source + frame obligations (no cached observer, per-subscription slots)',
+        'engines': ['kani', 'syntactic', 'verus_units'],
+        'technique': 'Verus contracts on the connect/disconnect callbacks of ref_count and replay extracted from /repo (when the source is subscribed / unsubscribed as a function of the observer count) + Kani bounded call sequences on the real publish/ref_count/replay with a hot instrumented source + frame obligations (no cached observer, per-subscription slots)',
         'level_text': 'frame obligations (syntactic) + bounded conformance: number of source subscriptions, sharing among subscribers, stop on last unsubscribe and replay-from-the-beginning are checked on the real types for concrete call sequences (<=2 subscribers): publish under Kani (symbolic items; three of the four harnesses only in the thorough tier), ref_count/replay by native runs (concrete items)',
         'level_note': 'NOT a proof of the call-sequence property: bounded stand-ins, labelled as such; ref_count/replay are beyond Kani here (> 600 s per harness) and their callbacks were not extractable for Verus',
         'design_ref': 'DESIGN.md 4.13',
